@@ -132,3 +132,83 @@ Theorem C09_program_collect :
        [OOut (print_row p 0 (c_rowsep cf) (new_with_no_context (collection o rows)))]).
 Proof. exact program_collect. Qed.
 Print Assumptions C09_program_collect.
+
+(* several inputs (file arguments): the collector theorems for ANY list of inputs *)
+From Jawk Require Import Base F64 Json Reader JsonParser Ctx Printer Fn Expr Chain ExprParser Go PipelineSpec OrderProofs SorterProofs ChainProofs GroupUniqProofs GoProofs BuildProofs FilesProofs ProgramProofs ProgramFilesProofs.
+
+(* go with a collector over any list of inputs writes exactly one row: the collection of the rows go without it writes *)
+Theorem C09_program_collect_files :
+  forall (cf : cfg) (g : option (list byte)) (ins : list (option str * list ev))
+      (b : bool) (p : printer) (sts : list stage) (hdr : list byte),
+    c_group cf = Some g ->
+    c_on_error cf = OnIgnore ->
+    Forall (fun i : option str * list ev => Forall (fun e : ev => e <> EErr) (snd i)) ins ->
+    build_pipeline cf = Some (p, sts) ->
+    start_output p (titles expr sts []) (c_rowsep cf) = Some hdr ->
+    (forall t : N, c_take cf = Some t -> (c_skip cf + t <= 18446744073709551615)%N) ->
+    exists (pre : list stage) (o : option expr),
+      group_key g = Some o /\
+      sts = pre ++ [collector_stage o] /\
+      hdr = [] /\
+      build_pipeline (no_group cf) = Some (p, pre) /\
+      start_output p (titles expr pre []) (c_rowsep (no_group cf)) = Some [] /\
+      (let cs := fst (ctxs_of_inputs cf ins 0) in
+       let rows := spec expr get pre cs in
+       g_result (go (no_group cf) ins b) = GOk /\
+       g_events (go (no_group cf) ins b) = emit cf p (length (titles expr pre [])) rows /\
+       g_result (go cf ins b) = GOk /\
+       g_events (go cf ins b) =
+       [OOut (print_row p 0 (c_rowsep cf) (new_with_no_context (collection o rows)))]).
+Proof. exact program_collect_files. Qed.
+Print Assumptions C09_program_collect_files.
+
+(* --group-by over any list of inputs *)
+Theorem C09_program_group_by_files :
+  forall (cf : cfg) (k : list byte) (ins : list (option str * list ev)) (b : bool)
+      (p : printer) (sts : list stage) (hdr : list byte),
+    c_group cf = Some (Some k) ->
+    c_on_error cf = OnIgnore ->
+    Forall (fun i : option str * list ev => Forall (fun e : ev => e <> EErr) (snd i)) ins ->
+    build_pipeline cf = Some (p, sts) ->
+    start_output p (titles expr sts []) (c_rowsep cf) = Some hdr ->
+    (forall t : N, c_take cf = Some t -> (c_skip cf + t <= 18446744073709551615)%N) ->
+    exists (pre : list stage) (e : expr),
+      parse_whole k = Some e /\
+      build_pipeline (no_group cf) = Some (p, pre) /\
+      start_output p (titles expr pre []) (c_rowsep (no_group cf)) = Some [] /\
+      (let cs := fst (ctxs_of_inputs cf ins 0) in
+       let rows := spec expr get pre cs in
+       g_result (go (no_group cf) ins b) = GOk /\
+       g_events (go (no_group cf) ins b) = emit cf p (length (titles expr pre [])) rows /\
+       g_result (go cf ins b) = GOk /\
+       g_events (go cf ins b) =
+       [OOut (print_row p 0 (c_rowsep cf) (new_with_no_context (group_spec expr get e rows)))] /\
+       (rows = [] ->
+        g_events (go cf ins b) = [OOut (print_row p 0 (c_rowsep cf) (new_with_no_context (JObj [])))])).
+Proof. exact program_group_by_files. Qed.
+Print Assumptions C09_program_group_by_files.
+
+(* --merge over any list of inputs *)
+Theorem C09_program_merge_files :
+  forall (cf : cfg) (ins : list (option str * list ev)) (b : bool) (p : printer)
+      (sts : list stage) (hdr : list byte),
+    c_group cf = Some None ->
+    c_on_error cf = OnIgnore ->
+    Forall (fun i : option str * list ev => Forall (fun e : ev => e <> EErr) (snd i)) ins ->
+    build_pipeline cf = Some (p, sts) ->
+    start_output p (titles expr sts []) (c_rowsep cf) = Some hdr ->
+    (forall t : N, c_take cf = Some t -> (c_skip cf + t <= 18446744073709551615)%N) ->
+    exists pre : list stage,
+      build_pipeline (no_group cf) = Some (p, pre) /\
+      start_output p (titles expr pre []) (c_rowsep (no_group cf)) = Some [] /\
+      (let cs := fst (ctxs_of_inputs cf ins 0) in
+       let rows := spec expr get pre cs in
+       g_result (go (no_group cf) ins b) = GOk /\
+       g_events (go (no_group cf) ins b) = emit cf p (length (titles expr pre [])) rows /\
+       g_result (go cf ins b) = GOk /\
+       g_events (go cf ins b) =
+       [OOut (print_row p 0 (c_rowsep cf) (new_with_no_context (JArr (map build rows))))] /\
+       (rows = [] ->
+        g_events (go cf ins b) = [OOut (print_row p 0 (c_rowsep cf) (new_with_no_context (JArr [])))])).
+Proof. exact program_merge_files. Qed.
+Print Assumptions C09_program_merge_files.
